@@ -58,7 +58,9 @@ class Engine(EngineBase):
         n = rng.randrange(1, 6)
         sps = []
         while len(sps) < n:
-            sp = gen_sp(rng, "abcd", 2) if rng.random() < 0.6 else {"k": rng.randrange(4)}
+            r = rng.random()
+            # the empty state point is a legal job too (and the only falsy one)
+            sp = {} if r < 0.08 else gen_sp(rng, "abcd", 2) if r < 0.64 else {"k": rng.randrange(4)}
             if all(not same(sp, s) for s in sps):
                 sps.append(sp)
         cache = rng.choice(["absent", "complete", "partial"])
